@@ -5,7 +5,7 @@
 From Coq Require Import String.
 From Coq Require Import List NArith Bool.
 From HS Require Import Base.Prelude Model.Value Model.Escape Model.Version Model.Json Model.ZincParse.
-From HS Require Import Proofs.EscapeP Proofs.ZincParseP.
+From HS Require Import Proofs.EscapeP Proofs.ZincParseP Proofs.ZincNumP Proofs.ZincDateP Proofs.ZincListP Proofs.ZincGridP.
 Import ListNotations.
 Open Scope N_scope.
 
@@ -42,6 +42,28 @@ Theorem C03_blanks_around_commas : forall a b rest, (match rest with c :: _ => i
 Proof. exact comma_with_blanks. Qed.
 
 (* spellings, computed (tests of the model, not unbounded claims) *)
+(* WHOLE DOCUMENTS: a 3.0 document made of the version line, a line of distinct column names and any number of rows of
+   comma-separated cells is read as exactly the grid it denotes, WHATEVER spelling each cell uses - the only thing asked
+   of a cell text t for a value v is that the scalar rule reads v from t when a comma, a line end, a closing bracket or
+   the end of the text follows (reads g v t).  The spellings below meet it. *)
+Theorem C03_whole_document : forall g names rows rts,
+  names <> [] -> Forall colname names -> NoDup names -> Forall2 (grid_row_ok g names) rows rts ->
+  p_grid (S (S g)) true (header30 ++ join [44] names ++ 10 :: rows_text rts)
+  = Some (Ok (VGrid V30 [] (map (fun n => (n, [])) names) (map (fun cells => combine names cells) rows)), []).
+Proof. exact grid_reads. Qed.
+(* number spellings: optional sign, digits, optional fraction, optional exponent e / e+ / e- and digits, optional unit *)
+Theorem C03_number_spellings : forall g ver3 sg ip fp ex u rest, ntok_ok sg ip fp ex u -> delim rest ->
+  p_scalar (S g) ver3 (mant sg ip fp ex ++ upt u ++ rest) = Some (Ok (nval sg ip fp ex u), rest).
+Proof. exact scalar_number. Qed.
+Theorem C03_date_time_spellings : forall g ver3 rest, delim rest ->
+  (forall y m d, valid_date y m d = true -> p_scalar (S g) ver3 (iso_date y m d ++ rest) = Some (Ok (VDate y m d), rest)) /\
+  (forall h mi s us, time_ok h mi s us -> p_scalar (S g) ver3 (iso_time h mi s us ++ rest) = Some (Ok (VTime h mi s us), rest)).
+Proof. intros g ver3 rest Hd. split; intros; [apply scalar_date|apply scalar_time]; assumption. Qed.
+(* lists: elements in any spelling the scalar rule reads *)
+Theorem C03_lists : forall g vs ts rest, Forall2 (reads g) vs ts -> delim rest ->
+  p_scalar (S (S g)) true (91 :: join [44] ts ++ 93 :: rest) = Some (Ok (VList vs), rest).
+Proof. exact scalar_list. Qed.
+
 Example C03_spellings :
   zparse_scalar true (s_ "1_000") = Ok (VNum NkFin (s_ "1000") (s_ "1000") None) /\
   zparse_scalar true (s_ "-INF") = Ok (VNum NkNegInf [] [] None) /\
@@ -50,6 +72,10 @@ Example C03_spellings :
   zparse_scalar true (s_ """e\$""") = Ok (VStr [101; 36]).
 Proof. vm_compute. repeat split; reflexivity. Qed.
 
+Print Assumptions C03_whole_document.
+Print Assumptions C03_number_spellings.
+Print Assumptions C03_date_time_spellings.
+Print Assumptions C03_lists.
 Print Assumptions C03_digit_separators.
 Print Assumptions C03_blanks_around_commas.
 Print Assumptions C03_final_newline_optional.
